@@ -1,12 +1,19 @@
 #!/bin/bash
 # try_mutant.sh <patch.diff> <demo.py> <PROP> [tier]
-# Applies the patch to /repo, confirms demo fails + baseline passes, runs the check, reverts.
-P=$1; D=$2; PROP=$3; TIER=${4:-quick}
-cd /repo || exit 2
-git diff --quiet || { echo "repo dirty"; exit 2; }
+# Applies the patch to a scratch worktree of /repo's HEAD (so background runs that use /repo are not
+# disturbed), confirms the demo fails and the baseline still passes there, runs the check against the
+# scratch tree (PYTHONPATH wins over /venv's editable install of /repo), and removes the worktree.
+P=$(readlink -f $1); D=$(readlink -f $2); PROP=$3; TIER=${4:-quick}
+W=/tmp/wt/M_$$
+git -C /repo worktree add -q --detach $W HEAD || exit 2
+trap 'git -C /repo worktree remove --force $W' EXIT
+cd $W || exit 2
+export PYTHONPATH=$W/src
 echo "== clean demo:"; /venv/bin/python $D >/dev/null 2>&1; echo "  exit=$?"
 git apply $P || { echo "patch does not apply"; exit 2; }
 echo "== mutant demo:"; /venv/bin/python $D 2>&1 | tail -2; echo "  exit=${PIPESTATUS[0]}"
-if [ -z "$SKIP_BASELINE" ]; then echo "== baseline:"; /venv/bin/python /verif/tools/baseline.py | head -3; fi
-echo "== check $PROP:"; cd /verif && ./check $PROP --tier $TIER 2>&1 | grep -v "^KNOWN-FINDING" | tail -4 | cut -c1-200
-git -C /repo checkout -- . ; git -C /repo status --short | head -2
+if [ -z "$SKIP_BASELINE" ]; then echo "== baseline:"; REPO=$W /venv/bin/python /verif/tools/baseline.py | head -3; fi
+for PR in $PROP; do
+echo "== check $PR:"; (cd /verif && VERIF_OUT=/tmp/wt/out_$$ ./check $PR --tier $TIER 2>&1 | grep -v "^KNOWN-FINDING" | tail -4 | cut -c1-260)
+done
+rm -rf /tmp/wt/out_$$
